@@ -32,7 +32,7 @@ import (
 
 func TestMain(m *testing.M) {
 	document.SetGlobalLevel(document.LogLevelSilent)
-	kit.TestMain(m, 1500, 9000)
+	kit.TestMain(m, 1000, 9000)
 }
 
 // Case is one generated input: the foreign package, the edits between open and save, the entry points.
@@ -82,24 +82,54 @@ func genCase(t *rapid.T) Case {
 func hfKind(i int) string {
 	switch ops.In(i, 3) {
 	case 0:
-		return "1"
+		return "default"
 	case 1:
 		return "first"
 	}
 	return "even"
 }
 
-// regenerated returns the part names an op rewrites by design (they join the regenerated set G).
-func regenerated(o ops.Op) []string {
+// hfParts maps "header:default", "footer:even", ... to the parts of the opened package that some
+// section of its main part refers to for that kind (read from the package with the oracle's own readers).
+func hfParts(P *opc.Package) map[string][]string {
+	out := map[string][]string{}
+	root, err := canon.Parse(P.Parts["word/document.xml"])
+	if err != nil {
+		return out
+	}
+	byID := map[string]opc.Rel{}
+	for _, r := range P.Rels["word/_rels/document.xml.rels"] {
+		byID[r.ID] = r
+	}
+	for _, sp := range root.All(foreign.NSW, "sectPr") {
+		for _, k := range sp.Kids {
+			if k.Space != foreign.NSW || (k.Local != "headerReference" && k.Local != "footerReference") {
+				continue
+			}
+			r, ok := byID[k.A(foreign.NSR, "id")]
+			if !ok || r.External() {
+				continue
+			}
+			key := strings.TrimSuffix(k.Local, "Reference") + ":" + k.A(foreign.NSW, "type")
+			out[key] = append(out[key], r.Resolved)
+		}
+	}
+	return out
+}
+
+// regenerated returns the parts of the opened package an op rewrites by design (they join the
+// regenerated set G): a header/footer call of a kind replaces the definition the package has for
+// that kind; list, note, note-configuration and property calls rewrite their part.
+func regenerated(o ops.Op, hf map[string][]string) []string {
 	i0 := 0
 	if len(o.I) > 0 {
 		i0 = o.I[0]
 	}
 	switch o.K {
 	case "header", "headerpn", "fheader":
-		return []string{"word/header" + hfKind(i0) + ".xml"}
+		return hf["header:"+hfKind(i0)]
 	case "footer", "footerpn", "ffooter":
-		return []string{"word/footer" + hfKind(i0) + ".xml"}
+		return hf["footer:"+hfKind(i0)]
 	case "listitem", "bullet", "numbered":
 		return []string{"word/numbering.xml"}
 	case "footnote":
@@ -218,12 +248,13 @@ func run(c Case) *kit.Result {
 		x.Paras, x.Tables, x.Images = nil, nil, nil
 	}
 	markOld()
+	hf := hfParts(P)
 	n5 := "equal"
 	var shape []string
 	imagesAdded := 0
 	for i, op := range c.Ops {
 		res.Label("op:" + op.K)
-		for _, g := range regenerated(op) {
+		for _, g := range regenerated(op, hf) {
 			G[g] = true
 		}
 		switch {
@@ -534,7 +565,7 @@ func TestC04(t *testing.T) {
 		Gen: genCase, Run: run, Findings: findings, Fixed: fixedCases,
 		Assumptions: []string{
 			"the generated packages are well-formed and self-consistent (self-test of internal/foreign: own OPC reader, own well-formedness checker, description == rendered bytes)",
-			"parts an executed edit rewrites by design (header/footer file of the kind set, numbering, notes, settings, docProps) join the regenerated set and are not compared",
+			"parts an executed edit rewrites by design (the header/footer part the package's sections reference for the kind that is set, numbering after a list call, footnotes/endnotes after a note call, settings after SetFootnoteConfig, docProps after a properties call) join the regenerated set and are not compared",
 			"the edits never touch content that came with the package, except RemoveParagraphAt/RemoveElementAt, after which the text clause is not evaluated",
 			"a refused Open or a failed Save loses nothing and is counted, not judged",
 		},
